@@ -5,7 +5,10 @@ from . import common as C
 import importlib
 ALL = ['C%02d' % i for i in range(1, 21)]
 CHECKS = {}
+_claimed = set(open(os.path.join(C.VERIF, 'vlib', 'claimed.txt')).read().split())
 for _pid in ALL:
+    if _pid not in _claimed:
+        continue
     try:
         _m = importlib.import_module('vlib.' + _pid.lower())
     except ModuleNotFoundError:
